@@ -133,12 +133,12 @@ pub fn run(args: &Args) {
     let total_days = last - first + 1;
     let nshards: u64 = 64;
     let full_days: Vec<(i64, i64, i64)> = vec![
-        (1900, 1, 1), (1900, 1, 2), (1900, 2, 27), (1900, 2, 28), (1900, 3, 1), (1900, 3, 2), (1900, 12, 31), (1901, 1, 1), (1904, 2, 29), (1904, 3, 1),
+        (9999, 12, 31), (1900, 1, 1), (1900, 1, 2), (1900, 2, 27), (1900, 2, 28), (1900, 3, 1), (1900, 3, 2), (1900, 12, 31), (1901, 1, 1), (1904, 2, 29), (1904, 3, 1),
         (1969, 12, 31), (1970, 1, 1), (1999, 12, 31), (2000, 1, 1), (2000, 2, 28), (2000, 2, 29), (2000, 3, 1), (2000, 12, 31), (2001, 1, 1), (2023, 2, 28),
         (2023, 3, 1), (2024, 2, 29), (2024, 12, 31), (2038, 1, 19), (2100, 2, 28), (2100, 3, 1), (2400, 2, 29), (2400, 3, 1), (3000, 1, 1), (4000, 2, 29),
-        (4000, 3, 1), (7999, 12, 31), (8000, 1, 1), (9000, 6, 15), (9999, 1, 1), (9999, 2, 28), (9999, 12, 30), (9999, 12, 31), (1950, 7, 4), (1910, 10, 10),
+        (4000, 3, 1), (7999, 12, 31), (8000, 1, 1), (9000, 6, 15), (9999, 1, 1), (9999, 2, 28), (9999, 12, 30), (1950, 7, 4), (1910, 10, 10),
     ];
-    let nfull = if thorough { full_days.len() } else { 6 };
+    let nfull = if thorough { full_days.len() } else { 7 };
     let mut a2 = Args { cases: nshards + nfull as u64, ..Args::parse() };
     a2.cmd = args.cmd.clone();
     let agg = run_cases(&a2, |seed, k| {
